@@ -1,9 +1,313 @@
+/-
+C05 driver: replays the pool model (`Pandora.Model.C05`, REPAIRED variant) on the order in which the real
+`awaitRun` consumed results (the engine's own Debug log) and predicts what the harness observed: the result of
+every `Pool.Run`, its log lines, the await log including the derived lines (`c` start cancelled on out of ammo,
+`a` all instances awaited, `x` error suppressed, `w` wait finished), created guns and their Close counts, and
+through the engine loop the result of `Engine.Run`. Environment choices (component returns, startup ticks, the
+caller's cancel, the end of the shared schedule) are filled in on demand; every inserted choice must be ENABLED
+in the model (a step that does not change the state is a rejection), so an order or a branch the model cannot
+take shows up as `rejected:…`.
+-/
 import Pandora.Drv.Util
+import Pandora.Model.C05Pool
+import Pandora.Spec.C05
 
 namespace Pandora.Drv.C05
-open Pandora.Drv
+open Pandora.Drv Pandora.Model.C05 Pandora.Spec.C05
 
-/-- stub: replaced when the property's model driver is written -/
-def handle : Handler := fun _ _ => ("-", "skip:not-built")
+def cfg : Cfg := Cfg.repaired
+
+def errId : String → ErrId
+  | "prov" => 1 | "agg" => 2 | "newgun" => 3 | "bind" => 4 | "warmup" => 5 | "sched" => 6 | "panic" => 7 | _ => 99
+
+def errName : ErrId → String
+  | 1 => "prov" | 2 => "agg" | 3 => "newgun" | 4 => "bind" | 5 => "warmup" | 6 => "sched" | 7 => "panic" | _ => "unknown"
+
+def parseRet (v : String) : Option Ret :=
+  if v == "ok" then some .ok else if v == "ctx" then some .ctx else if v == "ooa" then some .ooa
+  else (errOfToken ("." ++ v)).map fun c => .err (errId c)
+
+def retStr : Ret → String
+  | .ok => "ok" | .ctx => "ctx" | .ooa => "ooa" | .err e => "e." ++ errName e
+
+def wrapStr : Wrap → String
+  | .provider => "provider" | .aggregator => "aggregator" | .start => "start" | .instance _ => "instance"
+  | .warmup => "warmup" | .newgun => "newgun" | .raw => "raw"
+
+/-- replay state: the model state, the predicted log lines (reversed), whether the caller's cancel may be inserted -/
+structure R where
+  s : State
+  aw : List String := []
+  main : List String := []
+  allowExt : Bool
+
+abbrev M := Except String
+
+/-- fire a choice that must be enabled; `log` = the await goroutine's own log lines of this step, which precede
+the derived ones (`a` = `checkAllInstancesAreFinished` fired, `w` = the await loop ended) -/
+def fire (r : R) (c : Choice) (what : String) (log : List String := []) : M R :=
+  let s' := step cfg r.s c
+  if s' == r.s then .error s!"rejected:{what}" else
+  if s'.panicked then .error s!"model-panic:{what}" else
+  let aw := log.reverse ++ r.aw
+  let aw := if r.s.runResOpen && !s'.runResOpen then "a" :: aw else aw
+  let aw := if r.s.aw != .finished && s'.aw == .finished then "w" :: aw else aw
+  .ok { r with s := s', aw := aw }
+
+def extCancel (r : R) (why : String) : M R :=
+  if r.s.extC then .ok r
+  else if r.allowExt then fire r .extCancel "extCancel" else .error s!"rejected:{why}-needs-a-cancel"
+
+/-- make `runC` true if the value is the context error -/
+def needRunC (r : R) (v : Ret) (why : String) : M R :=
+  if v == .ctx && !r.s.runC then extCancel r why else .ok r
+
+def newOut (p : PoolIn) (v : Ret) : NewOut :=
+  match v with
+  | .err 3 => .gunFail 3
+  | .err 4 => .bindFail 4 p.closable
+  | .err 6 => .schedFail 6
+  | _ => .ok p.closable
+
+def spawnTo (p : PoolIn) (n : Nat) (r : R) : Nat → M R
+  | 0 => if r.s.spawned < n then .error "rejected:spawn" else .ok r
+  | fuel + 1 =>
+    if r.s.spawned ≥ n then .ok r else do
+      let r ← if r.s.spawned == 0 then fire r (.startFirst (.ok p.closable)) "startFirst" else fire r .startTick "startTick"
+      spawnTo p n r fuel
+
+/-- after an await step: the error branch (`onErrAwaited`) is resolved by the next log line -/
+def resolveErr (r : R) (rest : List String) : M (R × List String) :=
+  match r.s.aw with
+  | .onErr w v _ =>
+    match rest with
+    | "x" :: rest' => do
+      let r ← if r.s.poolC then pure r else extCancel r "suppress"
+      let r ← fire r .errSuppress "errSuppress" ["x"]
+      pure (r, rest')
+    | _ => do
+      let r ← fire r .errDeliver s!"errDeliver-{wrapStr w}"
+      pure ({ r with main := "fin" :: s!"fail.{retStr v}" :: r.main }, rest)
+  | _ => .ok (r, rest)
+
+def instIndex (s : State) (id : Nat) : Option Nat := s.live.findIdx? (·.id == id)
+
+/-- one primary token of the await log -/
+def tokenStep (p : PoolIn) (r : R) (tok : String) : M R :=
+  match tok.splitOn "." with
+  | kind :: vs =>
+    let vstr := ".".intercalate vs
+    match parseRet vstr with
+    | none => .error s!"unparsable:{tok}"
+    | some v =>
+      if kind == "P" then do
+        let r ← if r.s.prov == .running then do
+            let r ← needRunC r v "provider-ctx"
+            fire r (.provRet v) s!"provRet-{vstr}"
+          else pure r
+        fire r .awaitProv "awaitProv" [tok]
+      else if kind == "A" then do
+        let r ← if r.s.agg == .running then do
+            let r ← needRunC r v "aggregator-ctx"
+            fire r (.aggRet v) s!"aggRet-{vstr}"
+          else pure r
+        fire r .awaitAgg "awaitAgg" [tok]
+      else if kind.startsWith "S" then do
+        let n ← match (kind.drop 1).toNat? with
+          | some n => pure n
+          | none => .error s!"unparsable:{tok}"
+        let r ← if r.s.startRes.isSome then pure r else
+          match v with
+          | .err _ => fire r (.startFirst (newOut p v)) s!"startFirst-{vstr}"
+          | _ => do
+            let r ← spawnTo p n r (n + 1)
+            let r ← if v == .ctx && !r.s.startC then
+                (if !p.per then fire r .rpsFinished "rpsFinished" else extCancel r "start-ctx")
+              else pure r
+            fire r .startEnd "startEnd"
+        let r ← fire r .awaitStart "awaitStart" [tok]
+        if r.s.startedInstances != n then .error s!"started-{r.s.startedInstances}-vs-{n}" else
+        match r.s.startRes with
+        | some (_, v') => if v' == v then pure r else .error s!"start-result-{retStr v'}-vs-{vstr}"
+        | none => .error "no-start-result"
+      else if kind.startsWith "R" then do
+        let id ← match (kind.drop 1).toNat? with
+          | some n => pure n
+          | none => .error s!"unparsable:{tok}"
+        let r ← spawnTo p (id + 1) r (id + 2)
+        let r ← match instIndex r.s id with
+          | none => .error s!"rejected:instance-{id}-not-running"
+          | some i => do
+            let r ← match r.s.live[i]? with
+              | some ⟨_, none⟩ => fire r (.instCreate i (newOut p v)) s!"instCreate-{id}"
+              | _ => pure r
+            match v with
+            | .err 3 | .err 4 | .err 6 => pure r       -- `newInstance` failed: the result is already sent
+            | _ => do
+              let r ← needRunC r v "instance-ctx"
+              match instIndex r.s id with
+              | some i => fire r (.instRet i v) s!"instRet-{id}-{vstr}"
+              | none => .error s!"rejected:instance-{id}-gone"
+        match r.s.buf with
+        | [(id', v')] =>
+          if id' != id || v' != v then .error s!"result-{id'}.{retStr v'}-vs-{tok}" else
+          fire r .awaitRun s!"awaitRun-{id}" (tok :: (if v == .ooa && !r.s.startTaken then ["c"] else []))
+        | _ => .error s!"rejected:run-result-{id}"
+      else .error s!"unknown-token:{tok}"
+  | _ => .error s!"unknown-token:{tok}"
+
+def isPrimary (t : String) : Bool := !(t == "c" || t == "a" || t == "w")
+
+partial def tokens (p : PoolIn) (r : R) : List String → M R
+  | [] => .ok r
+  | tok :: rest =>
+    if !isPrimary tok then tokens p r rest       -- derived lines are re-predicted by the model
+    else if tok == "x" then .error "rejected:suppress-without-error" else do
+      let r ← tokenStep p r tok
+      let (r, rest) ← resolveErr r rest
+      tokens p r rest
+
+def mainStr : PRes → String
+  | .ok => "ok" | .ctx => "ctx" | .fail w (.err e) => s!"err:{wrapStr w}:{errName e}" | .fail w r => s!"err:{wrapStr w}:{retStr r}"
+
+structure PoolPred where
+  res : Option PRes
+  result : String          -- ok | ctx | err:<wrap>:<comp> | running
+  main : List String
+  aw : List String
+  guns : Nat
+  closes : List Nat
+  errs : List String
+  done : Bool
+
+def insertSorted (x : Nat) : List Nat → List Nat
+  | [] => [x]
+  | y :: ys => if x ≤ y then x :: y :: ys else y :: insertSorted x ys
+
+def insertStr (x : String) : List String → List String
+  | [] => [x]
+  | y :: ys => if x ≤ y then x :: y :: ys else y :: insertStr x ys
+
+def sortStr (l : List String) : List String := l.foldl (fun acc x => insertStr x acc) []
+
+def finishedPool (s : State) : Bool :=
+  s.waitDone == 1 && s.live.isEmpty && s.buf.isEmpty && (s.aw == .off || s.aw == .finished) &&
+  (s.prov == .idle || s.prov == .taken) && (s.agg == .idle || s.agg == .taken) &&
+  (match s.main with | .returned _ => true | _ => false)
+
+/-- replay one pool -/
+def replayPool (p : PoolIn) (o : PoolObs) (allowExt preCancel : Bool) : M PoolPred := do
+  let r : R := { s := init, allowExt := allowExt }
+  let r ← if preCancel then extCancel r "pre" else pure r
+  let warm : WarmOut :=
+    if p.has "newgun" 0 then .gunFail 3
+    else if p.warm && p.fails.any (·.1 == "warmup") then .warmFail 5 p.closable
+    else .ok p.closable
+  let r ← fire r (.warm warm) "warm"
+  let r ← match r.s.main with
+    | .returned _ => pure { r with main := ["fin"] }
+    | _ => do
+      let r ← fire r (.sched (if !p.per && p.has "sched" 1 then some 6 else none)) "sched"
+      match r.s.main with
+      | .returned _ => pure { r with main := ["fin"] }
+      | _ => do
+        -- instances the start goroutine spawned, and its clean end, do not depend on the await order: do them first
+        let sTok := o.aw.find? (·.startsWith "S")
+        let r ← match sTok with
+          | some t =>
+            match t.splitOn "." with
+            | kind :: vs =>
+              let n := ((kind.drop 1).toNat?).getD 0
+              let v := parseRet (".".intercalate vs)
+              if r.s.startC then pure r else do
+                let r ← match v with
+                  | some (.err _) => pure r
+                  | _ => spawnTo p n r (n + 1)
+                if v == some .ok then fire r .startEnd "startEnd" else pure r
+            | _ => pure r
+          | none => pure r
+        let r ← tokens p r o.aw
+        -- the end of `Pool.Run` as its own log tells it
+        if o.main.contains "cancel" then
+          match r.s.main with
+          | .selecting => do
+            let r ← extCancel r "main-cancel"
+            let r ← fire r .mainCancel "mainCancel"
+            pure { r with main := "fin" :: "cancel" :: r.main }
+          | _ => pure r
+        else if o.main.contains "ok" then
+          match r.s.main with
+          | .selecting => do
+            let r ← fire r .mainClosed "mainClosed"
+            pure { r with main := "fin" :: "ok" :: r.main }
+          | _ => pure r
+        else pure r
+  let s := r.s
+  pure { res := s.result, result := (s.result.map mainStr).getD "running", main := r.main.reverse, aw := r.aw.reverse,
+         guns := s.guns.length, closes := s.guns.foldl (fun acc g => insertSorted g.closes acc) [],
+         errs := (s.compErrs.foldl (fun acc e => insertSorted e acc) []).eraseDups.map errName |> sortStr,
+         done := finishedPool s }
+
+def poolCls (res : String) : String :=
+  match res.splitOn ":" with
+  | ["err", _, c] => "e." ++ c
+  | _ => res
+
+def listStr (l : List String) : String := if l.isEmpty then "-" else ",".intercalate l
+
+def handle : Handler := fun input impl =>
+  if impl.startsWith "PANIC" || impl.startsWith "HANG" || impl.startsWith "BADINPUT" then
+    ("-", s!"fail:crash:{impl.take 80}") else
+  match parsePlan input with
+  | none => ("-", "skip:unparsable-input")
+  | some pl =>
+  match parseObs pl.pools.length impl with
+  | none => ("-", s!"fail:crash:unparsable observation {impl.take 80}")
+  | some o =>
+    let v := verdict pl o
+    let n := pl.pools.length
+    -- the caller's cancel may be inserted when the harness cancelled before Run returned; a pool of a multi-pool
+    -- run also sees the deferred cancel of `Engine.Run` once another pool has made it return
+    let allowExt := o.canc || (n > 1 && o.res != "ok")
+    let preds := (List.range n).map fun i =>
+      match pl.pools[i]?, o.pools[i]? with
+      | some p, some po => replayPool p po allowExt (pl.cancel.startsWith "pre")
+      | _, _ => .error "missing-pool"
+    match preds.mapM id with
+    | .error e => (e, v)
+    | .ok ps =>
+      -- the engine loop (`Engine.Run`): results it consumed, in order
+      let engBad := o.eng.filterMap fun t =>
+        match t.splitOn "." with
+        | pk :: cls =>
+          match (pk.drop 1).toNat? >>= (ps[·]?) with
+          | some pp => if poolCls pp.result == ".".intercalate cls then none else some s!"eng-{t}-vs-{pp.result}"
+          | none => some s!"eng-{t}"
+        | _ => some s!"eng-{t}"
+      match engBad.head? with
+      | some e => (e, v)
+      | none =>
+      -- `Engine.Run` (model `engRun`) over the results it consumed; the outcome of its non-blocking context check on
+      -- an error result is the runtime's choice: possible only after a cancel
+      let evs : List EEv := o.eng.filterMap fun t =>
+        match t.splitOn "." with
+        | pk :: _ =>
+          match (pk.drop 1).toNat? with
+          | some k => (ps[k]? >>= (·.res)).map fun r => EEv.pool k r (r == .ctx || (o.canc && o.res == "ctx"))
+          | none => none
+        | _ => none
+      let evs := if o.engc == "1" then evs ++ [EEv.ctxDone] else evs
+      let res : String :=
+        match engRun n evs with
+        | some .ok => "ok"
+        | some .ctx => "ctx"
+        | some (.fail k (.fail w (.err e))) => s!"err:p{k}:{wrapStr w}:{errName e}"
+        | some (.fail k r) => s!"?p{k}:{mainStr r}"
+        | none => "running"
+      let wait := if ps.all (·.done) then "ok" else "hang"
+      let head := s!"res={res} canc={if o.canc then 1 else 0} lat={o.lat} wait={wait} leak=0 eng={listStr o.eng} engc={o.engc} sup={o.sup}"
+      let body := (List.range n).zip ps |>.map fun (i, pp) =>
+        s!" p{i}.main={listStr pp.main} p{i}.aw={listStr pp.aw} p{i}.guns={pp.guns} p{i}.closes={listStr (pp.closes.map toString)} p{i}.errs={listStr pp.errs}"
+      (head ++ String.join body, v)
 
 end Pandora.Drv.C05
